@@ -31,11 +31,13 @@ CLAIMS = {
 GOALS = {'quick': ['same template merged twice', 'overlapping nested key',
                    'embedded two levels deep',
                    'merge into a generated composite',
-                   'composer generated again after a nested override'],
+                   'composer generated again after a nested override',
+                   'flow entry merged over an existing one'],
          'thorough': ['same template merged twice', 'overlapping nested key',
                       'embedded two levels deep',
                       'merge into a generated composite',
-                      'composer generated again after a nested override']}
+                      'composer generated again after a nested override',
+                      'flow entry merged over an existing one']}
 STUBS = ['composer with two pure processes (symbolic constant timesteps, '
          'symbolic delta) and three flow steps (two in one layer, one '
          'dependent); recording emitter']
@@ -317,7 +319,7 @@ def part_merge(ctx, cfg):
     n_template = 0
     steps = []
     for i in range(cfg['L']):
-        kind = ctx.choice('kind', 4)
+        kind = ctx.choice('kind', 5)
         if kind == 3 and i > 0:
             break
         path = PATHS[ctx.choice('at', len(PATHS))]
@@ -340,6 +342,18 @@ def part_merge(ctx, cfg):
             add = snap
             merged_in.append((comp, snap))
             steps.append(('fresh composite', path))
+        elif kind == 4:
+            # a loose step with a flow entry under the key of a template step
+            # that already has one: the later dependency list replaces it
+            st = D3()
+            deps = [[], [('st2',)]][ctx.choice('deps', 2)]
+            target.merge(steps={'st3': st}, flow={'st3': list(deps)},
+                         topology={'st3': {'t': ('t',)}}, path=path)
+            add = {('steps', ('st3',)): id(st),
+                   ('flow', ('st3',)): repr(deps),
+                   ('topology', ('st3', 't')): repr(('t',))}
+            steps.append(('loose step + flow', path, deps))
+            ctx.goal('flow entry merged over an existing one')
         else:
             pr = P({'ts': 1, 'd': 1})
             loose = {'p': pr}             # same key as the template: overrides
